@@ -423,6 +423,11 @@ def alias_cases(ctx, r, lines, expect, speclines, meta):
 
 # ---------------------------------------------------------------- round 7: the whole alphabet over OBJECTS, mixins, odd labels
 
+def plain(c):
+    """the plain label of a canonical form of `canon_py`"""
+    return tuple(plain(x) for x in c[1:]) if c[0] == 't' else c[1]
+
+
 def dedup(xs):
     out = []
     for x in xs:
@@ -431,7 +436,7 @@ def dedup(xs):
     return out
 
 
-def object_cases(ctx, r, lines, expect, speclines, meta):
+def object_cases(ctx, r, lines, expect, speclines, meta, cls=Variables, n_hist=None):
     """object-level histories over the WHOLE alphabet (`_extend`, copy three ways, pickle, deepcopy, slicing next to the
     mutators) with stored aliases: the stored OBJECTS (type and value) of the real Variables vs the object-level model
     (`khist3`), the labels vs the plain list; then the inherited `abc.Set` / `abc.Sequence` mixin methods (`kmix`)."""
@@ -445,10 +450,10 @@ def object_cases(ctx, r, lines, expect, speclines, meta):
     def objs_of(v):
         return ','.join(pk(x) for x in v)
 
-    n_hist = ctx.scale(260, 2600)
+    n_hist = n_hist or ctx.scale(260, 2600)
     for _ in range(n_hist):
         pool = flat if r.random() < .6 else notnp     # NumPy scalars never meet tuples (DESIGN D23)
-        v = Variables(); ref = []; toks = []; flags = ''
+        v = cls(); ref = []; toks = []; flags = ''
         code = ['import copy, pickle', 'import numpy as np', 'from dimod.variables import Variables', 'v = Variables()']
 
         def same(c):
@@ -497,7 +502,7 @@ def object_cases(ctx, r, lines, expect, speclines, meta):
             elif k == 'C':
                 how = r.randrange(4)
                 toks.append('C'); src = ['v = v.copy()', 'v = copy.copy(v)', 'v = Variables(v)', 'v = type(v)(v)'][how]; want = True
-                call = [lambda: v.copy(), lambda: copy.copy(v), lambda: Variables(v), lambda: type(v)(v)][how]
+                call = [lambda: v.copy(), lambda: copy.copy(v), lambda: cls(v), lambda: type(v)(v)][how]
                 newv = True
             elif k == 'K':
                 proto = r.randrange(2, pickle.HIGHEST_PROTOCOL + 1)
@@ -565,8 +570,8 @@ def object_cases(ctx, r, lines, expect, speclines, meta):
             flags += str(int(ok))
             ctx.tick('obj3 ' + {'+': 'append', '?': 'append', '~': 'auto', 'E': 'extend', 'C': 'copy', 'K': 'pickle', 'D': 'deepcopy', 'S': 'slice', 'p': 'pop', 'x': 'remove', 'R': 'relabel', 'r': 'relabel_ints', 'c': 'clear'}[k] + ('' if ok else ' (raises)'))
             if ok != want or [canon_py(x) for x in v] != ref or len(v) != len(ref):
-                ctx.fail('property', 'Variables.objects', 'history over alias objects (whole alphabet)', f'after {code[4:]}: list(v)={list(v)!r}, last call raised={not ok}; labels should be {[c[1] for c in ref]!r}, list accepts the last call={want}',
-                         repro='\n'.join(code[:-1]) + f'\n_ok = True\ntry: {src}\nexcept (ValueError, IndexError): _ok = False\nassert _ok == {want} and [x if isinstance(x, (str, tuple)) else int(x) for x in v] == {[c[1] for c in ref]!r}')
+                ctx.fail('property', 'Variables.objects', 'history over alias objects (whole alphabet)', f'after {code[4:]}: list(v)={list(v)!r}, last call raised={not ok}; labels should be {[plain(c) for c in ref]!r}, list accepts the last call={want}',
+                         repro='\n'.join(code[:-1]) + f'\n_ok = True\ntry: {src}\nexcept (ValueError, IndexError): _ok = False\nassert _ok == {want} and list(v) == {[plain(c) for c in ref]!r}')
                 return
         ctx.case(('khist3', tuple(toks)), nontrivial=len(v) > 0)
         emit('khist3 ' + (','.join(toks) or '-'), f"ok {flags} {state(v)} {objs_of(v)}", 'object:khist3')
@@ -576,29 +581,32 @@ def object_cases(ctx, r, lines, expect, speclines, meta):
             r.shuffle(o)
             if r.random() < .2:
                 o = [r.choice(same(x)) for x in v]    # an alias copy of v itself: == / <= / >= true
-            ov = Variables(o); od = list(ov)
+            ov = cls(o); od = list(ov)
             co = [canon_py(x) for x in o]; cod = dedup(co)
             subr = [c for c in ref if c not in co]
             want = dict(rev=ref[::-1], dj=not any(c in ref for c in co), le=set(ref) <= set(cod), lt=set(ref) < set(cod), ge=set(ref) >= set(cod),
                         gt=set(ref) > set(cod), and_=dedup([c for c in co if c in ref]), or_=dedup(ref + co), sub=subr,
-                        xor=dedup(subr + [c for c in cod if c not in ref]), eqseq=ref == co, eqset=set(ref) == set(cod))
+                        xor=dedup(subr + [c for c in cod if c not in ref]), eqseq=ref == co, eqset=set(ref) == set(cod),
+                        rsub=[c for c in cod if c not in ref], ror=dedup(ref + co), rand=dedup([c for c in co if c in ref]), rxor=dedup(subr + [c for c in cod if c not in ref]), neseq=ref != co)
             hdr = '\n'.join(code) + f'\no = {rp(o)}\n'
             try:
                 gotr = dict(rev=list(reversed(v)), dj=v.isdisjoint(o), le=v <= ov, lt=v < ov, ge=v >= ov, gt=v > ov, and_=v & o, or_=v | o,
-                            sub=v - o, xor=v ^ o, eqseq=(v == o), eqset=(v == frozenset(od)))
+                            sub=v - o, xor=v ^ o, eqseq=(v == o), eqset=(v == frozenset(od)),
+                            rsub=o - v, ror=o | v, rand=o & v, rxor=o ^ v, neseq=(v != o))
             except Exception as e:  # noqa
                 ctx.fail('property', 'Variables.mixins', 'a mixin method raised', f'v={list(v)!r}, other={o!r}: {type(e).__name__}: {e}',
                          repro=hdr + 'ov = Variables(o)\nlist(reversed(v)); v.isdisjoint(o); v <= ov; v < ov; v >= ov; v > ov; v & o; v | o; v - o; v ^ o; v == o; v == frozenset(ov)')
                 return
             exprs = dict(rev='list(reversed(v))', dj='v.isdisjoint(o)', le='v <= Variables(o)', lt='v < Variables(o)', ge='v >= Variables(o)', gt='v > Variables(o)',
-                         and_='v & o', or_='v | o', sub='v - o', xor='v ^ o', eqseq='v == o', eqset='v == frozenset(Variables(o))')
+                         and_='v & o', or_='v | o', sub='v - o', xor='v ^ o', eqseq='v == o', eqset='v == frozenset(Variables(o))',
+                         rsub='o - v', ror='o | v', rand='o & v', rxor='o ^ v', neseq='v != o')
             for key, w in want.items():
                 g = gotr[key]
                 gg = [canon_py(x) for x in g] if isinstance(w, list) else g
-                if gg != w or (key in ('and_', 'or_', 'sub', 'xor') and (not isinstance(g, Variables) or len(g) != len(w))):
-                    wtxt = [c[1] for c in w] if isinstance(w, list) else w
+                if gg != w or (key in ('and_', 'or_', 'sub', 'xor', 'rsub', 'ror', 'rand', 'rxor') and (not isinstance(g, Variables) or len(g) != len(w))):
+                    wtxt = [plain(c) for c in w] if isinstance(w, list) else w
                     ctx.fail('property', 'Variables.mixins', exprs[key].replace('Variables(o)', 'other').replace(' o', ' other'), f'v={list(v)!r}, o={o!r}: {exprs[key]} is {list(g) if isinstance(w, list) else g!r}, the list / set of labels says {wtxt!r}',
-                             repro=hdr + (f'assert [x if isinstance(x, (str, tuple)) else int(x) for x in {exprs[key]}] == {wtxt!r}' if isinstance(w, list) else f'assert ({exprs[key]}) == {w!r}'))
+                             repro=hdr + (f'assert list({exprs[key]}) == {wtxt!r}' if isinstance(w, list) else f'assert ({exprs[key]}) == {w!r}'))
                     return
             ctx.case(('kmix', tuple(toks), tuple(pk(x) for x in o)), nontrivial=bool(o) and len(v) > 0)
             ctx.tick('mixins')
@@ -606,7 +614,15 @@ def object_cases(ctx, r, lines, expect, speclines, meta):
             emit(f"kmix {','.join(toks) or '-'} {','.join(pk(x) for x in o) or '-'} {','.join(pk(x) for x in od) or '-'}",
                  f"ok rev={objs_of(gotr['rev'])} dj={b(gotr['dj'])} le={b(gotr['le'])} lt={b(gotr['lt'])} ge={b(gotr['ge'])} gt={b(gotr['gt'])} "
                  f"and={objs_of(gotr['and_'])} or={objs_of(gotr['or_'])} sub={objs_of(gotr['sub'])} xor={objs_of(gotr['xor'])} "
-                 f"eqseq={b(gotr['eqseq'])} eqset={b(gotr['eqset'])}", 'object:kmix')
+                 f"eqseq={b(gotr['eqseq'])} eqset={b(gotr['eqset'])} rsub={objs_of(gotr['rsub'])} ror={objs_of(gotr['ror'])} neseq={b(gotr['neseq'])}", 'object:kmix')
+            # the remaining readers of the class on the same object (judged against the list)
+            q = r.choice(same(r.choice(list(v)))) if len(v) and r.random() < .6 else r.choice(pool)
+            inq = canon_py(q) in ref
+            if (bool(v.count(q)) != inq or (q in v) != inq or (inq and v.index(q) != ref.index(canon_py(q))) or v.is_range != (ref == [('i', i) for i in range(len(ref))])
+                    or v._is_range() != v.is_range or len(v) != len(ref) or (len(v) and canon_py(v[-1]) != ref[-1]) or [canon_py(x) for x in copy.copy(v)] != ref):
+                ctx.fail('property', 'Variables.mixins', 'count / in / index / is_range / len / v[-1] / copy.copy after a history', f'v={list(v)!r}, q={q!r}: count={v.count(q)}, in={q in v}, is_range={v.is_range}; labels {[plain(c) for c in ref]!r}',
+                         repro=hdr + f'q = {rp(q)}\nL = {[plain(c) for c in ref]!r}\nassert bool(v.count(q)) == {inq} and (q in v) == {inq} and v.is_range == (L == list(range(len(L)))) and len(v) == len(L)')
+                return
     ctx.tick('object histories (whole alphabet)', n_hist)
 
 
@@ -686,6 +702,96 @@ def odd_label_cases(ctx, r):
                              repro=f'import numpy as np\nfrom dimod.variables import Variables\nv = Variables({start!r}); s = v.__reduce__()[2][:3]\ntry:\n    v._append({rp(bad) if is_np(bad) else "float(" + repr(str(bad)) + ")"})\n    raise AssertionError("accepted")\nexcept (ValueError, OverflowError): pass\nassert v.__reduce__()[2][:3] == s')
                     return
     ctx.tick('nan/inf refused')
+
+
+# ---------------------------------------------------------------- round 7: which methods of the class the generators really call
+
+import collections as _collections
+import importlib.util as _ilu
+import os as _os
+import re as _re
+
+HITS = _collections.Counter()
+
+
+class Rec(Variables):
+    """a recording subclass: every attribute fetched from an instance and every special method the interpreter looks up
+    on the type is counted in HITS (wrappers installed by `install_recorders`)"""
+    def __getattribute__(self, name):
+        HITS[name] += 1
+        return super().__getattribute__(name)
+
+
+def install_recorders(names):
+    for name in names:
+        if not (name.startswith('__') and name.endswith('__')) or name in ('__getattribute__', '__class__', '__new__'):
+            continue
+        orig = None
+        for k in Variables.__mro__:
+            if name in vars(k):
+                orig = vars(k)[name]
+                break
+        if orig is None or not callable(orig):
+            continue
+
+        def mk(name, orig):
+            def w(self, *a, **kw):
+                HITS[name] += 1
+                return orig(self, *a, **kw)
+            w.__name__ = name
+            return w
+        setattr(Rec, name, mk(name, orig))
+
+
+def method_coverage(ctx, r):
+    """the method set of the class is read from the SOURCE under test by harness/translators/vars_methods.py; the object-level
+    generators are run once more on the recording subclass and every method that is not declared out of scope in
+    lean/DimodModel/VarsAlphabet.lean must have been reached (cdef methods: through a reached method whose body calls them)."""
+    here = _os.path.dirname(_os.path.dirname(_os.path.abspath(__file__)))
+    spec = _ilu.spec_from_file_location('vars_methods', _os.path.join(here, 'translators', 'vars_methods.py'))
+    vm = _ilu.module_from_spec(spec); spec.loader.exec_module(vm)
+    cy, py, _bases, mix = vm.extract()
+    names = [n for n, _ in cy] + [n for n, _ in py] + list(mix)
+    alpha = open(_os.path.join(_os.path.dirname(here), 'lean', 'DimodModel', 'VarsAlphabet.lean')).read()
+    oos = set(_re.findall(r'\("([^"]+)",', alpha.split('def outOfScope')[1].split('def covers')[0]))
+    modelled = set(_re.findall(r'\("([^"]+)",', alpha.split('def modelled')[1].split('def outOfScope')[0]))
+    install_recorders(names)
+    HITS.clear()
+    sink = ([], [], [], [])
+    object_cases(ctx, r, *sink, cls=Rec, n_hist=ctx.scale(80, 400))
+    # entry points that object_cases does not use: the range constructor, len / indexing / != / properties
+    w = Rec(range(4)); w._append('a'); len(w); w[0]; w[1:]; w != [0]; w.is_range; w._is_range(); w.index('a'); w.count('a'); 'a' in w; copy.copy(w); list(iter(w))
+    Rec(w)
+    # the pickle hooks under their Cython names (pickle itself goes through the aliases `__reduce__` / `__setstate__`)
+    st = w.__reduce_cython__()[2]
+    w2 = Rec(); w2.__setstate_cython__(st)
+    if list(w2) != list(w) or w2.__reduce__()[2][:3] != w.__reduce__()[2][:3]:
+        ctx.fail('property', 'Variables.pickle', '__setstate_cython__(__reduce_cython__ state)', f'state {st!r} set on a fresh object gives {list(w2)!r}, the original is {list(w)!r}',
+                 repro="from dimod.variables import Variables\nw = Variables(range(4)); w._append('a')\nw2 = Variables(); w2.__setstate_cython__(w.__reduce_cython__()[2])\nassert list(w2) == list(w)")
+    pyx = open(_os.path.join(vm.SRC, 'cyvariables.pyx')).read()
+    kinds = dict(cy)
+    missing = []
+    for n in names:
+        if n in oos:
+            continue
+        hit = HITS[n] > 0
+        if not hit and kinds.get(n) == 'cdef':
+            # reached through a Python-visible method whose block calls `self.<n>(`
+            for m, kd in cy:
+                if kd != 'cdef' and HITS[m] > 0:
+                    blk = _re.search(r'^    (?:cpdef|def)\b[^\n]*\b' + _re.escape(m) + r'\s*\(.*?(?=^    (?:cpdef|cdef|def)\b|\Z)', pyx, flags=_re.M | _re.S)
+                    if blk and _re.search(r'\bself\.' + _re.escape(n) + r'\(', blk.group(0)):
+                        hit = True
+                        break
+        ctx.tick(f'method {n}' + ('' if hit else ' (NOT REACHED)'), HITS[n] or int(hit))
+        if not hit:
+            missing.append(n)
+        elif n not in modelled:
+            missing.append(n + ' [not in the model alphabet]')
+    if missing:
+        ctx.fail('correspondence', 'Variables alphabet', 'a method of the class is outside the exercised / modelled alphabet',
+                 f'methods of cyVariables / Variables (from the source) that no generator reaches or the model alphabet does not list: {missing}',
+                 detail=dict(missing=missing))
 
 
 def slice_table(ctx, lines, expect, speclines, meta, errcls):
@@ -950,6 +1056,7 @@ def run(ctx):
     alias_cases(ctx, r, lines, expect, speclines, meta)
     object_cases(ctx, r, lines, expect, speclines, meta)
     odd_label_cases(ctx, r)
+    method_coverage(ctx, r)
     got = run_driver('varsdriver', lines)
     ctx.corr_lines += len(lines)
     for i, ln in enumerate(lines):
